@@ -866,6 +866,11 @@ def split_ok(y, a, adaptive_smooth, al, ar, i):
 
 
 @invariant(GATP, loop=1)
+def gatp_inv_first(a_ls, a_rs, k):
+    return a_ls[0] == 1 and a_rs[0] == 1
+
+
+@invariant(GATP, loop=1)
 def gatp_inv_split(x, y, a, adaptive_smooth, a_ls, a_rs, k):
     return forall(range(1, k), lambda i: split_ok(y, a, adaptive_smooth, a_ls[i], a_rs[i], i))
 
@@ -873,6 +878,12 @@ def gatp_inv_split(x, y, a, adaptive_smooth, a_ls, a_rs, k):
 @ensures(GATP)
 def gatp_split(x, y, a, adaptive_smooth, result):
     return forall(range(1, len(x.a) // x.n - 1), lambda i: split_ok(y, a, adaptive_smooth, result[0][i], result[1][i], i))
+
+
+@ensures(GATP)
+def gatp_ends(x, y, a, adaptive_smooth, result):
+    """the two virtual intervals get windows of one sample"""
+    return (result[0][0] == 1 and result[1][0] == 1 and result[0][len(result[0]) - 1] == 1 and result[1][len(result[1]) - 1] == 1)
 
 
 @ensures(GATP)
@@ -945,6 +956,300 @@ def lina_h_xs_grid(self, osx, result):
 @ensures(LINA + '.rfa', uses=['lina_h_xs_grid'])
 def lina_grid(self, result):
     return grid_ok(self.x, self.n, result)
+
+
+# ------------------------------------------------------------------------------- LinearAdaptiveRFA.rfa: values (C05 - C07)
+#
+# Adaptive windows as specification functions of the averages (the formula GATP is proved to compute, `split_ok`): wl(K) / wr(K)
+# are the left / right window of the extended interval K.
+
+def jr(self, K):
+    return abs(ye(self, K + 1) - ye(self, K))
+
+
+def jl(self, K):
+    return abs(ye(self, K) - ye(self, K - 1))
+
+
+@opaque
+def wl(self, K):
+    return (1 if (K <= 0 or K >= len(self.x)) else
+            (0 if (jr(self, K) == 0 and jl(self, K) == 0) else
+             (self.a // 2 if jr(self, K) == 0 else
+              (0 if jl(self, K) == 0 else
+               trunc(min(max(pw(jr(self, K) / jl(self, K), self.adaptive_smooth) * self.a / (1 + pw(jr(self, K) / jl(self, K), self.adaptive_smooth)), 1), self.a))))))
+
+
+@opaque
+def wr(self, K):
+    return (1 if (K <= 0 or K >= len(self.x)) else
+            (0 if (jr(self, K) == 0 and jl(self, K) == 0) else
+             (0 if jr(self, K) == 0 else
+              (self.a // 2 if jl(self, K) == 0 else
+               trunc(min(max(self.a / (1 + pw(jr(self, K) / jl(self, K), self.adaptive_smooth)), 1), self.a))))))
+
+
+@opaque
+def xl(self, K, r):
+    """abscissa r samples before the start of interval K (r = 0: the start itself)"""
+    return xe(self, K - 1, self.n - r) if r >= 1 else xe(self, K, 0)
+
+
+@opaque
+def z0a(self, K):
+    """border value between the intervals K-1 and K: straight line between the plateau ends of the two intervals (windows
+    wr(K-1) and wl(K)) taken at the border; the common value when neither side has a window"""
+    return (ye(self, K - 1) if (wr(self, K - 1) == 0 and wl(self, K) == 0) else
+            lf(xe(self, K, 0), xl(self, K, wr(self, K - 1)), ye(self, K - 1), xr(self, K, wl(self, K)), ye(self, K)))
+
+
+@opaque
+def fal(self, K, j):
+    return lf(xe(self, K, j), xe(self, K, 0), z0a(self, K), xr(self, K, wl(self, K)), ye(self, K))
+
+
+@opaque
+def far(self, K, j):
+    return lf(xr(self, K, j), xr(self, K, self.n - wr(self, K)), ye(self, K), xe(self, K + 1, 0), z0a(self, K + 1))
+
+
+@opaque
+def ba(self, K):
+    """first sample of interval K: the border value when a window touches the border, else the average"""
+    return z0a(self, K) if (wl(self, K) >= 1 or (K > 1 and wr(self, K - 1) >= 1)) else ye(self, K)
+
+
+@opaque
+def fa(self, K, j):
+    """sample j of the extended interval K as LinearAdaptiveRFA documents it"""
+    return (ba(self, K) if j == 0 else
+            (fal(self, K, j) if j < wl(self, K) else
+             (ye(self, K) if j <= self.n - wr(self, K) else far(self, K, j))))
+
+
+ghost(LINA + '.rfa', before='y_0 = y[k, 0]', name='zk', expr='z.a.copy()')
+
+
+@hint(LINA + '.rfa', before='a_ls, a_rs, gammas = self.get_adaptive_transition_points')
+def lina_h_grid_mid(self, x, y):
+    return ext_mid(self, x.a, y.a)
+
+
+@hint(LINA + '.rfa', before='a_ls, a_rs, gammas = self.get_adaptive_transition_points')
+def lina_h_grid_left0(self, osx, x):
+    return osx[0] == self.x[0] and osx[self.n] == self.x[1] and 2 * osx[0] - osx[self.n] == 2 * self.x[0] - self.x[1]
+
+
+@hint(LINA + '.rfa', before='a_ls, a_rs, gammas = self.get_adaptive_transition_points')
+def lina_h_grid_left(self, x, y):
+    return ext_left(self, x.a, y.a)
+
+
+@hint(LINA + '.rfa', before='a_ls, a_rs, gammas = self.get_adaptive_transition_points')
+def lina_h_grid_right(self, x, y):
+    return ext_right(self, x.a, y.a)
+
+
+@hint(LINA + '.rfa', before='a_ls, a_rs, gammas = self.get_adaptive_transition_points')
+def lina_h_grid(self, x, y, z):
+    return ext_grid(self, x.a, y.a) and forall(range(ext_len(self)), lambda t: z.a[t] == y.a[t])
+
+
+def windows_are(self, a_ls, a_rs):
+    """the two lists GATP returned are the specification windows"""
+    return (len(a_ls) == len(self.x) + 1 and len(a_rs) == len(self.x) + 1
+            and forall(range(len(self.x) + 1), lambda K: a_ls[K] == wl(self, K) and a_rs[K] == wr(self, K)
+                       and 0 <= wl(self, K) and wl(self, K) <= self.a and 0 <= wr(self, K) and wr(self, K) <= self.a))
+
+
+@hint(LINA + '.rfa', before=BEFORE_LOOP)
+def lina_h_jumps(self, y):
+    """the averages GATP compares are the averages of the extended intervals"""
+    return forall(range(len(self.x) + 1), lambda K: y.a[K * self.n] == ye(self, K))
+
+
+@hint(LINA + '.rfa', before=BEFORE_LOOP)
+def lina_h_windows_mid(self, y, a_ls, a_rs):
+    return forall(range(1, len(self.x)), lambda K: a_ls[K] == wl(self, K) and a_rs[K] == wr(self, K))
+
+
+@hint(LINA + '.rfa', before=BEFORE_LOOP)
+def lina_h_windows_ends(self, y, a_ls, a_rs):
+    return (a_ls[0] == wl(self, 0) and a_rs[0] == wr(self, 0) and a_ls[len(self.x)] == wl(self, len(self.x))
+            and a_rs[len(self.x)] == wr(self, len(self.x)))
+
+
+@hint(LINA + '.rfa', before=BEFORE_LOOP)
+def lina_h_windows_are(self, a_ls, a_rs):
+    return windows_are(self, a_ls, a_rs)
+
+
+@invariant(LINA + '.rfa', loop=1)
+def lina_inv1_values(self, x, y, z, a_ls, a_rs, k):
+    return (ext_grid(self, x.a, y.a) and windows_are(self, a_ls, a_rs)
+            and forall(range(1, k), lambda K: forall(range(self.n), lambda j: z.a[K * self.n + j] == fa(self, K, j)))
+            and z.a[k * self.n] == ((z0a(self, k) if wr(self, k - 1) >= 1 else ye(self, k)) if k > 1 else ye(self, k))
+            and untouched_from(self, z.a, y.a, k * self.n + 1))
+
+
+@hint(LINA + '.rfa', before='for i in range(0, a_ls[k])')
+def lina_h_points(self, x, y, k):
+    return (x.a[k * self.n] == xe(self, k, 0) and x.a[k * self.n - wr(self, k - 1)] == xl(self, k, wr(self, k - 1))
+            and x.a[k * self.n + wl(self, k)] == xr(self, k, wl(self, k)) and x.a[k * self.n + self.n - wr(self, k)] == xr(self, k, self.n - wr(self, k))
+            and x.a[(k + 1) * self.n] == xe(self, k + 1, 0) and x.a[(k + 1) * self.n + wl(self, k + 1)] == xr(self, k + 1, wl(self, k + 1))
+            and y.a[(k - 1) * self.n] == ye(self, k - 1) and y.a[k * self.n] == ye(self, k) and y.a[(k + 1) * self.n] == ye(self, k + 1))
+
+
+@hint(LINA + '.rfa', before='for i in range(0, a_ls[k])')
+def lina_h_z0_cases(self, x, y, a_ls, a_rs, k, z_0):
+    """what the two branches assigned, in the code's own terms"""
+    return (implies(a_rs[k - 1] == 0 and a_ls[k] == 0, z_0 == y.a[(k - 1) * self.n])
+            and implies(not (a_rs[k - 1] == 0 and a_ls[k] == 0),
+                        z_0 == lf(x.a[k * self.n], x.a[k * self.n - a_rs[k - 1]], y.a[(k - 1) * self.n], x.a[k * self.n + a_ls[k]], y.a[k * self.n])))
+
+
+@hint(LINA + '.rfa', before='for i in range(0, a_ls[k])')
+def lina_h_z1_cases(self, x, y, a_ls, a_rs, k, y_0, z_1):
+    return implies(not (a_rs[k] == 0 and a_ls[k + 1] == 0),
+                   z_1 == lf(x.a[(k + 1) * self.n], x.a[k * self.n + self.n - a_rs[k]], y_0, x.a[(k + 1) * self.n + a_ls[k + 1]], y.a[(k + 1) * self.n]))
+
+
+@hint(LINA + '.rfa', before='for i in range(0, a_ls[k])')
+def lina_h_windows_k(self, a_ls, a_rs, k):
+    return (a_rs[k - 1] == wr(self, k - 1) and a_ls[k] == wl(self, k) and a_rs[k] == wr(self, k) and a_ls[k + 1] == wl(self, k + 1))
+
+
+@hint(LINA + '.rfa', before='for i in range(0, a_ls[k])')
+def lina_h_borders(self, k, y_0, z_0):
+    return y_0 == ye(self, k) and z_0 == z0a(self, k)
+
+
+@hint(LINA + '.rfa', before='for i in range(0, a_ls[k])')
+def lina_h_xl_xr(self, k):
+    """the plateau end of interval k seen from interval k+1 (xl) and from interval k (xr) is the same abscissa"""
+    return implies(wr(self, k) >= 1, xl(self, k + 1, wr(self, k)) == xr(self, k, self.n - wr(self, k)))
+
+
+@hint(LINA + '.rfa', before='for i in range(0, a_ls[k])')
+def lina_h_border_next(self, k, z_1):
+    return implies(wr(self, k) >= 1, z_1 == z0a(self, k + 1))
+
+
+@invariant(LINA + '.rfa', loop=2)
+def lina_inv2_values(self, x, y, z, zk, a_ls, a_rs, k, i):
+    return (windows_are(self, a_ls, a_rs)
+            and forall(range(ext_len(self)), lambda t: z.a[t] == zk[t] if t < k * self.n else True)
+            and untouched_from(self, z.a, y.a, k * self.n + (i if i >= 1 else 1))
+            and (z.a[k * self.n] == zk[k * self.n] if i == 0 else True)
+            and forall(range(i), lambda j: z.a[k * self.n + j] == fal(self, k, j)))
+
+
+@hint(LINA + '.rfa', loop=2, when='head')
+def lina_h2_bound(self, a_ls, k, i):
+    return a_ls[k] == wl(self, k) and wl(self, k) <= self.a and i <= wl(self, k) and i <= self.n
+
+
+@hint(LINA + '.rfa', loop=2, when='head')
+def lina_h2_point(self, x, k, i):
+    """(at the loop head the loop condition is not yet known: the sample is read only when i < wl(k) <= n)"""
+    return implies(i < wl(self, k), x.a[k * self.n + i] == xe(self, k, i))
+
+
+@hint(LINA + '.rfa', loop=2, when='head')
+def lina_h2_end_point(self, x, a_ls, k, i):
+    return x.a[k * self.n + a_ls[k]] == xr(self, k, wl(self, k)) and x.a[k * self.n] == xe(self, k, 0)
+
+
+@hint(LINA + '.rfa', loop=2, when='end')
+def lina_h2_stored(self, z, k, i):
+    return z.a[k * self.n + (i - 1)] == fal(self, k, i - 1)
+
+
+@invariant(LINA + '.rfa', loop=3)
+def lina_inv3_values(self, x, y, z, zk, a_ls, a_rs, k, i):
+    return (windows_are(self, a_ls, a_rs)
+            and forall(range(ext_len(self)), lambda t: z.a[t] == zk[t] if t < k * self.n else True)
+            and forall(range(wl(self, k)), lambda j: z.a[k * self.n + j] == fal(self, k, j))
+            and (z.a[k * self.n] == zk[k * self.n] if wl(self, k) == 0 else True)
+            and forall(range(ext_len(self)), lambda t: z.a[t] == y.a[t]
+                       if (t >= k * self.n + wl(self, k) and t >= k * self.n + 1 and (t < k * self.n + self.n - wr(self, k) + 1 or t >= k * self.n + i)) else True)
+            and forall(range(self.n - wr(self, k) + 1, i), lambda j: z.a[k * self.n + j] == far(self, k, j)))
+
+
+@hint(LINA + '.rfa', loop=3, when='head')
+def lina_h3_point_in(self, x, k, i):
+    return implies(i < self.n, x.a[k * self.n + i] == xe(self, k, i) and xr(self, k, i) == xe(self, k, i))
+
+
+@hint(LINA + '.rfa', loop=3, when='head')
+def lina_h3_point_end(self, x, k, i):
+    return implies(i == self.n, x.a[k * self.n + i] == xe(self, k + 1, 0) and xr(self, k, i) == xe(self, k + 1, 0))
+
+
+@hint(LINA + '.rfa', loop=3, when='head')
+def lina_h3_end_points(self, x, a_rs, k, i):
+    return (x.a[k * self.n + self.n - a_rs[k]] == xr(self, k, self.n - wr(self, k)) and x.a[k * self.n + self.n] == xe(self, k + 1, 0)
+            and a_rs[k] == wr(self, k))
+
+
+@hint(LINA + '.rfa', loop=3, when='end')
+def lina_h3_stored(self, z, k, i):
+    return z.a[k * self.n + (i - 1)] == far(self, k, i - 1)
+
+
+@hint(LINA + '.rfa', loop=1, when='end')
+def lina_h1_blocks(self, k):
+    return forall(range(1, k - 1), lambda K: K * self.n + self.n <= (k - 1) * self.n)
+
+
+@hint(LINA + '.rfa', loop=1, when='end')
+def lina_h1_frame(self, z, zk, k):
+    return forall(range(1, k - 1), lambda K: forall(range(self.n), lambda j: z.a[K * self.n + j] == zk[K * self.n + j]))
+
+
+@hint(LINA + '.rfa', loop=1, when='end')
+def lina_h1_order_r(self, k):
+    """the plateau end on the right, unfolded: a point of interval k-1 strictly before the next original abscissa"""
+    return implies(wr(self, k - 1) >= 1,
+                   xr(self, k - 1, self.n - wr(self, k - 1)) == xe(self, k - 1, self.n - wr(self, k - 1))
+                   and xe(self, k - 1, self.n - wr(self, k - 1)) == self.x[k - 2] + (self.n - wr(self, k - 1)) * (self.x[k - 1] - self.x[k - 2]) / self.n
+                   and xe(self, k, 0) == self.x[k - 1] and self.x[k - 2] < self.x[k - 1])
+
+
+@hint(LINA + '.rfa', loop=1, when='end')
+def lina_h1_order(self, k):
+    """where a window exists its two end abscissae differ (so the fit at an end point returns the end value)"""
+    return (implies(wl(self, k - 1) >= 1, xe(self, k - 1, 0) < xr(self, k - 1, wl(self, k - 1)))
+            and implies(wr(self, k - 1) >= 1, xr(self, k - 1, self.n - wr(self, k - 1)) < xe(self, k, 0)))
+
+
+@hint(LINA + '.rfa', loop=1, when='end')
+def lina_h1_end_values(self, k):
+    return (implies(wl(self, k - 1) >= 1, fal(self, k - 1, 0) == z0a(self, k - 1))
+            and implies(wr(self, k - 1) >= 1, xr(self, k - 1, self.n) == xe(self, k, 0) and far(self, k - 1, self.n) == z0a(self, k)))
+
+
+@hint(LINA + '.rfa', loop=1, when='end')
+def lina_h1_first(self, z, k):
+    return z.a[(k - 1) * self.n] == ba(self, k - 1)
+
+
+@hint(LINA + '.rfa', loop=1, when='end')
+def lina_h1_current(self, z, k):
+    return forall(range(k - 1, k), lambda K: forall(range(self.n), lambda j: z.a[K * self.n + j] == fa(self, K, j)))
+
+
+@hint(LINA + '.rfa', loop=1, when='end')
+def lina_h1_border(self, z, k):
+    return z.a[k * self.n] == (z0a(self, k) if wr(self, k - 1) >= 1 else ye(self, k))
+
+
+@ensures(LINA + '.rfa')
+def lina_values(self, result):
+    """C06: every recreated sample equals the documented closed form with the adaptive windows wl / wr; the last sample is the
+    border value towards the last average when the last interval has a right window"""
+    return (forall(range(len(self.x) - 1), lambda q: forall(range(self.n), lambda j: eq(result[1][q * self.n + j], fa(self, q + 1, j))))
+            and eq(result[1][(len(self.x) - 1) * self.n], z0a(self, len(self.x)) if wr(self, len(self.x) - 1) >= 1 else ye(self, len(self.x))))
 
 
 # =============================================================================== ExpAdaptiveRFA.rfa (C04 structure)
